@@ -91,6 +91,14 @@ ONE = {
     'C18g': 'the duplicate-id branch of the server "cleans up the rejected copy" but calls wait/terminate on the REGISTERED context: a second registration of an id kills the first context and its workers',
     'C19g': 'the registry becomes a weakref.WeakSet: a process worker the caller keeps no reference to is dropped while its OS process runs - active_children() and autoclose no longer see it',
     'C19e': 'the registry of active children becomes a dict keyed by worker id (setdefault): a new worker whose id equals that of a dead, not yet pruned one is never registered',
+    'C01h': 'RemoteWorker._fetch_results publishes the result only after the user-state message has been received: a user_state that cannot be rebuilt on the parent side kills the front-end thread before any outcome exists (dead worker, has_error None for good)',
+    'C04h': 'the child of a process worker installs a Python-level SIGTERM handler (forwarding the signal to nested workers): terminate(force=True) relied on the default disposition - under a C call holding the interpreter lock, or with a pending WorkerTerminatedError aborting the handler, the child survives',
+    'C07h': 'a worker found dead while enqueueing keeps its outstanding inputs until its end marker is read; after a SIGKILL no marker ever comes and the EOFError branch skips closed workers: the inputs stay pending and Pool.run blocks',
+    'C10h': '_recv_exactly returns b"" for an end of stream before the first byte, only the header read checks for it: a stream cut exactly after a complete header reaches loads(b"") and raises EOFError instead of ConnectionClosedError',
+    'C11h': 'the dead assertion in RemoteState.context.__init__ repaired to test `stack` (same change as C14h/C13b, made independently for C11): a client that dies during the control handshake raises through loads, the next healthy client takes the server down',
+    'C14h': 'the dead assertion in RemoteState.context.__init__ repaired to test `stack`: __exit__ removes the stack only after a successful load, so after one failed load every later load on the thread fails',
+    'C17h': 'ProcessWorker.wait returns True as soon as the final message has arrived and PersistentProcessWorker.wait delegates to it: restart() abandons a child that has reported but not exited',
+    'C19h': 'active_children() polls liveness outside the lock and prunes in a second critical section what it found dead: a dead worker restarted by another thread in between is dropped from the registry for good',
 }
 for d in sorted(glob.glob('/verif/seeded/*/')):
     sid = os.path.basename(d.rstrip('/'))
